@@ -303,7 +303,9 @@ struct World {
     uint64_t world_id = 0;      // distinguishes garbage fill of worlds inside one run
     uint64_t heap_calls = 0;
     uint8_t sentinel[64];
-    World() { for (auto &t : ts) t = nullptr; }
+    static const int NFD = 48;
+    int8_t fd_owner[NFD];        // simulated descriptor table shared by all callers of this world (-1 = free)
+    World() { for (auto &t : ts) t = nullptr; for (auto &f : fd_owner) f = -1; }
 };
 
 extern World *g_world;
